@@ -90,6 +90,65 @@ def lines_image(lines):
     return b''.join(l + b'\r\n' for l in lines)
 
 
+def as_build(line):
+    """A line given as plain bytes = one PRINT# statement with one item."""
+    if isinstance(line, (bytes, bytearray)):
+        return [[[bytes(line), '']]]
+    return line
+
+
+def print_image(builds, width=None):
+    """
+    Bytes written by PRINT# statements. A build is the list of statements that make up one logical line;
+    a statement is a list of [item, separator]: ';' joins the next item directly, ',' pads with blanks to
+    the next 14-column print zone, '' (last item of the last statement) ends the line with CR LF; a
+    statement that ends in ';' leaves the line open for the next statement.
+    width None = the default file width 255, which means unlimited: nothing is ever inserted.
+    With WIDTH #n, w: when an item does not fit in what is left of the line (and the line is not empty)
+    a CR LF is written before it (items are never broken inside; generated items are <= w).
+    Items contain printable characters only when ',' or a width is used (columns = characters).
+    """
+    if width == 255:
+        # WIDTH #n, 255 is the default again: unlimited
+        width = None
+    out = bytearray()
+    col = 1
+    for build in builds:
+        for stmt in as_build(build):
+            for item, sep in stmt:
+                w = sum(1 for c in item if c >= 0x20)
+                if width is not None and col != 1 and col - 1 + w > width:
+                    out += b'\r\n'
+                    col = 1
+                out += item
+                col += w
+                if sep == ',':
+                    n = 1 + 14 * ((col - 1) // 14 + 1) - col
+                    out += b' ' * n
+                    col += n
+                elif sep == '':
+                    out += b'\r\n'
+                    col = 1
+    return bytes(out)
+
+
+def read_units(image):
+    """
+    What LINE INPUT# delivers for a text image: every physical line in pieces of at most 255 characters
+    (GW-BASIC line buffer); returns [(piece, ends_line)].
+    """
+    units = []
+    lines = image.split(b'\r\n')
+    assert lines[-1] == b''
+    for l in lines[:-1]:
+        if not l:
+            units.append((b'', True))
+            continue
+        for i in range(0, len(l), 255):
+            units.append((l[i:i + 255], i + 255 >= len(l)))
+    return units
+
+
 def significant_digits(text):
     """Number of significant decimal digits in the mantissa of a number text."""
     t = text.decode('ascii', 'replace').upper().lstrip('+-')
